@@ -1,31 +1,64 @@
 ------------------------------ MODULE ArithGen -------------------------------
 (***************************************************************************)
-(* Generator for C56 (REPLAY).  The configurations (template, constants,   *)
-(* modulus, polynomial, register sizes, wire layout) are read from         *)
-(* IOEnv.CFG_FILE; one behaviour per configuration.  TLC checks that the   *)
-(* configuration is inside the documented preconditions and that the       *)
-(* documented function is well formed on its whole domain (fits, is        *)
-(* injective, restores the work register), then tabulates EVERY basis      *)
-(* input of the documented domain together with the expected basis output  *)
-(* (indices of computational basis states on wires 0..N-1) and emits it.   *)
+(* Generator for C56 (REPLAY) + exhaustive sweep of the documented model.  *)
+(*                                                                         *)
+(* (1) The configurations to replay (template, constants, modulus,         *)
+(* polynomial, register sizes, wire layout) are read from IOEnv.CFG_FILE;  *)
+(* one behaviour per configuration.  TLC checks that the configuration is  *)
+(* inside the documented preconditions and that the documented function is *)
+(* well formed on its whole domain (fits, is injective, restores the work  *)
+(* register), then tabulates EVERY basis input of the documented domain    *)
+(* together with the expected basis output (indices of computational basis *)
+(* states on wires 0..N-1) and emits it.                                   *)
+(* (2) Sweep: ALL parameter choices of the modular / signed templates with *)
+(* registers up to MAXB bits that satisfy the documented preconditions     *)
+(* (every modulus, every constant) get the same well-formedness checks     *)
+(* (not emitted): the documentation is consistent - under its own          *)
+(* preconditions every template is a bijection of its documented domain.   *)
 (* The work is done in the action (explored in parallel); the invariants   *)
 (* read the recorded results.                                              *)
 (***************************************************************************)
 EXTENDS Arith, Json, IOUtils, SequencesExt
-CONSTANT NCONFIGS
+CONSTANTS NCONFIGS, MAXB
 Configs == JsonDeserialize(IOEnv.CFG_FILE)
+
+IdLay(s) == [r \in 1..Len(s) |-> [i \in 1..s[r] |-> SumSeq(SubSeq(s, 1, r - 1)) + i - 1]]
+Mk(t, s, wk, k, mod, flag) == [t |-> t, k |-> k, mod |-> mod, flag |-> flag, cv |-> <<1, 1>>, poly |-> <<>>, nc |-> 0,
+                               wk |-> wk, lay |-> IdLay(s), N |-> SumSeq(s)]
+B == 1..MAXB
+Mods == 2..(2^MAXB)
+Ks == 0..(2^MAXB + 1)
+WW(n, m, a, b) == IF m = 2^n THEN a ELSE b          \* documented work-wire count: a for mod = 2^n, b otherwise
+Sweep == {c \in
+     {Mk("Adder", <<n, 2>>, 2, k, m, 0) : n \in B, m \in Mods, k \in Ks}
+\cup {Mk("PhaseAdder", <<n, 1>>, 2, k, m, 0) : n \in B, m \in Mods, k \in Ks}
+\cup {Mk("Multiplier", <<n, WW(n, m, n, n + 2)>>, 2, k, m, 0) : n \in B, m \in Mods, k \in Ks}
+\cup {Mk("ModExp", <<nx, no, WW(no, m, no, no + 2)>>, 3, k, m, 0) : nx \in 1..2, no \in B, m \in Mods, k \in Ks}
+\cup {Mk("OutAdder", <<nx, ny, no, 2>>, 4, 0, m, 0) : nx \in 1..2, ny \in 1..2, no \in B, m \in Mods}
+\cup {Mk("OutMultiplier", <<nx, ny, no, 2>>, 4, 0, m, f) : nx \in 1..2, ny \in 1..2, no \in B, m \in Mods, f \in 0..1}
+\cup {Mk("SignedOutMultiplier", <<nx, ny, no, 2 * no + 1>>, 4, 0, 0, f) : nx \in 1..2, ny \in 1..2, no \in B, f \in 0..1}
+\cup {Mk("OutSquare", <<n, m, m>>, 3, 0, 0, f) : n \in B, m \in B, f \in 0..1}
+\cup {Mk("SignedOutSquare", <<n, m, m>>, 3, 0, 0, f) : n \in B, m \in B, f \in 0..1}
+\cup {Mk("IntegerComparator", <<n, 1, 0>>, 3, k, 0, f) : n \in B, k \in Ks, f \in 0..1}
+   : Pre(c)}
+SweepSeq == SetToSeq(Sweep)
+NSweep == Len(SweepSeq)
+ASSUME PrintT(<<"SWEEP", NSweep>>)
+
 VARIABLES cid, done, chk
 AllTrue == [pre |-> TRUE, fits |-> TRUE, inj |-> TRUE, work |-> TRUE, enc |-> TRUE]
-Init == cid \in 1..NCONFIGS /\ done = FALSE /\ chk = AllTrue
+Init == cid \in 1..(NCONFIGS + NSweep) /\ done = FALSE /\ chk = AllTrue
 Emit == /\ ~done /\ done' = TRUE /\ cid' = cid
-        /\ LET c == Configs[cid]
+        /\ LET c == IF cid <= NCONFIGS THEN Configs[cid] ELSE SweepSeq[cid - NCONFIGS]
                pre == Pre(c)
                ft == TLCEval(IF pre THEN FTable(c) ELSE <<>>)
-               T == TLCEval(TableT(c, ft))
-               tab == SetToSortSeq(T, LAMBDA a, b : a[1] < b[1])
            IN /\ chk' = [pre |-> pre, fits |-> FitsT(c, ft), inj |-> InjectiveT(ft), work |-> WorkRestoredT(c, ft),
                          enc |-> EncInjectiveT(c, ft)]
-              /\ PrintT(ToJson([cid |-> cid, pre |-> pre, n |-> Cardinality(T), tab |-> tab]))
+              /\ IF cid <= NCONFIGS
+                 THEN LET T == TLCEval(TableT(c, ft))
+                          tab == SetToSortSeq(T, LAMBDA a, b : a[1] < b[1])
+                      IN PrintT(ToJson([cid |-> cid, pre |-> pre, n |-> Cardinality(T), tab |-> tab]))
+                 ELSE TRUE
 Next == Emit
 PreOK == chk.pre
 FitsOK == chk.fits
